@@ -569,10 +569,7 @@ func execOOMProbe(c *FSCase, st *Stats) (*Violation, interface{}, bool) {
 		}
 		return v, rc, ok
 	}
-	if mb, _ := strconv.Atoi(os.Getenv("VERIF_RLIMIT_MB")); mb > 0 {
-		lim := syscall.Rlimit{Cur: uint64(mb) << 20, Max: uint64(mb) << 20}
-		syscall.Setrlimit(syscall.RLIMIT_AS, &lim)
-	}
+	applyRlimit()
 	if c.Fault == "crashprobe" {
 		st.Fault("unaccounted_recursion_under_limit")
 		st.NonTrivial++
@@ -592,6 +589,13 @@ func execOOMProbe(c *FSCase, st *Stats) (*Violation, interface{}, bool) {
 		return v, c, true
 	}
 	return nil, nil, true
+}
+
+func applyRlimit() {
+	if mb, _ := strconv.Atoi(os.Getenv("VERIF_RLIMIT_MB")); mb > 0 {
+		lim := syscall.Rlimit{Cur: uint64(mb) << 20, Max: uint64(mb) << 20}
+		syscall.Setrlimit(syscall.RLIMIT_AS, &lim)
+	}
 }
 
 func (e fsEngine) Exec(ci interface{}, st *Stats) (*Violation, interface{}, bool) {
@@ -623,6 +627,15 @@ func (e fsEngine) Exec(ci interface{}, st *Stats) (*Violation, interface{}, bool
 	}
 	if c.Fault == "propsweep" {
 		return execPropSweep(c, st)
+	}
+	if c.Fault == "descsweep" {
+		return execDescSweep(c, st)
+	}
+	if c.Fault == "argsweep" {
+		return execArgSweep(c, st)
+	}
+	if c.Fault == "cycleprobe" {
+		return execCycleProbe(c, st)
 	}
 	if c.Fault == "history" {
 		return execHistory(c, st)
@@ -1101,6 +1114,15 @@ func (fsEngine) Enumerate(tier string) []interface{} {
 	}
 	for i := range apiStates {
 		out = append(out, &FSCase{Engine: "faultsweep", Fault: "apistate", From: i})
+	}
+	for i := range descHolders {
+		out = append(out, &FSCase{Engine: "faultsweep", Fault: "descsweep", From: i, Pairs: tier == "thorough"})
+	}
+	for i := range argOps {
+		out = append(out, &FSCase{Engine: "faultsweep", Fault: "argsweep", From: i, Pairs: tier == "thorough"})
+	}
+	for _, p := range cycleProgs {
+		out = append(out, &FSCase{Engine: "faultsweep", Fault: "cycleprobe", Prog: p})
 	}
 	for i := range strTemplates {
 		out = append(out, &FSCase{Engine: "faultsweep", Fault: "strsweep", From: i, Pairs: tier == "thorough"})
